@@ -2275,9 +2275,10 @@ func FuzzDate(f *testing.F) {
 		if !v1.Equal(v2) || e1 != nil && !v1.IsZero() {
 			t.Fatalf("date: values %v %v err %v", v1, v2, e1)
 		}
+		v0, e0 := date.DefaultParser(in, 0)
 		d := date.New(1999, 9, 9)
-		if err := d.UnmarshalText(in); err != nil && !d.Equal(date.New(1999, 9, 9)) || err == nil && !d.Equal(v1) {
-			t.Fatalf("date: UnmarshalText receiver %v err %v", d, err)
+		if err := d.UnmarshalText(in); (err == nil) != (e0 == nil) || err != nil && !d.Equal(date.New(1999, 9, 9)) || err == nil && !d.Equal(v0) {
+			t.Fatalf("date: UnmarshalText receiver %v err %v, parser %v %v", d, err, v0, e0)
 		}
 		d = date.New(1999, 9, 9)
 		if err := d.UnmarshalBinary(in2); err != nil && !d.Equal(date.New(1999, 9, 9)) {
